@@ -49,9 +49,13 @@ type cliResult struct {
 
 // cliEnv is a scratch HOME / cache / tmp directory for one history.
 type cliEnv struct {
-	dir string
-	sin int // how standard input is handed over: 0 a pipe, 1 a regular file, 2 a regular file whose first line the caller has already consumed
+	dir   string
+	sin   int  // how standard input is handed over: 0 a pipe, 1 a regular file, 2 a regular file whose first line the caller has already consumed
+	stale bool // -o names a file that already exists and is longer than the output
 }
+
+// withStale returns the environment in which every -o file exists before gts runs.
+func (e cliEnv) withStale(on bool) cliEnv { e.stale = on; return e }
 
 // withStdin returns the environment with another way of handing over standard input.
 func (e cliEnv) withStdin(mode int) cliEnv { e.sin = mode; return e }
@@ -85,6 +89,11 @@ func (e cliEnv) run(args []string, stdin []byte, outfile bool, exts ...string) c
 			ext = exts[0] // an extension gts derives the output format from (.fasta, .gb, .genbank)
 		}
 		outPath = filepath.Join(e.dir, "out", fmt.Sprintf("o%d%s", time.Now().UnixNano(), ext))
+		// the output file already exists and is longer than anything gts will write: what is left of it afterwards is
+		// not part of the output
+		if e.stale {
+			os.WriteFile(outPath, bytes.Repeat([]byte("stale content of an earlier output file\n"), 6000), 0o644)
+		}
 		full = append([]string{full[0], "-o", outPath}, full[1:]...)
 	}
 	ctx, cancel := context.WithTimeout(context.Background(), 60*time.Second)
